@@ -8,13 +8,14 @@ Line protocol (one answer line per input line):
 
   link <bw> <enA> <enB>          append a wired link                      -> ok
   chan <cap0,cap1,...> <en0> <en1> ...   append a wireless channel (hz); cap_i = capacity of interface i's frequency name -> ok
+  chan <caps> en <bits> mem <bits>       the same with the membership flags (in the frequency's interface list) given separately -> ok
   tick                           Network.pre_timestep                     -> dump
   setbw <k> <v>                  link k: bandwidth := v                   -> ok
   setcap <c> <i> <v>             channel c, interface i: capacity of its frequency name := v -> ok
   act <event tokens>             one top-level action (a forest)          -> records ` | ` dump
   dump                                                                    -> dump
   reset                          (handled by runDriver)                   -> ok
-  far <h|r|s> <en> <mac> <ip> <plen> <dstMac> <dstIp> <ttl> <ownIp,ownIp,...|->
+  far <h|r|s|w> <en> <mac> <ip> <plen> <dstMac> <dstIp> <ttl> <ownIp,ownIp,...|->
                                  answer of the far interface's receive_frame (C08's acceptance model) -> 1 | 0
 
 event tokens:   S k a s acc [ events ]     wired send on link k from end A (a=1) / B (a=0), size s, far answer acc
@@ -23,6 +24,7 @@ event tokens:   S k a s acc [ events ]     wired send on link k from end A (a=1)
                 F c i v                    wireless interface enable/disable took effect
                 L k a s [ events ]         wired send that never returned (an exception unwound through transmit_frame)
                 M c i s [ events ]         wireless send that never returned (an exception unwound through AirSpace.transmit)
+                J c i / Q c i              add_wireless_interface / remove_wireless_interface took effect for interface i of channel c
                 R c i j                    (inside a wireless send by i) the loop of AirSpace.transmit hands the frame to interface j
 -/
 
@@ -42,7 +44,7 @@ def showRec (r : Rec) : String :=
 def dump (n : Net) : String :=
   " ".intercalate (n.links.map fun l => s!"L:{l.bw}:{l.load}:{showBool l.enA}{showBool l.enB}") ++ " / " ++
   " ".intercalate (n.chans.map fun c =>
-    s!"C:{",".intercalate (c.caps.map toString)}:{c.load}:{"".intercalate (c.en.map showBool)}")
+    s!"C:{",".intercalate (c.caps.map toString)}:{c.load}:{"".intercalate (c.en.map showBool)}:{"".intercalate (c.mem.map showBool)}")
 
 mutual
 /-- Parse one event from the token list (fuel = number of tokens). -/
@@ -64,6 +66,14 @@ def parseEv : Nat → List String → Option (Ev × List String)
     match c.toNat?, i.toNat?, s.toNat?, parseEvs fuel rest with
     | some c, some i, some s, some (nested, rest') => some (.wlost c i s nested, rest')
     | _, _, _, _ => none
+  | _ + 1, "J" :: c :: i :: rest =>
+    match c.toNat?, i.toNat? with
+    | some c, some i => some (.wjoin c i, rest)
+    | _, _ => none
+  | _ + 1, "Q" :: c :: i :: rest =>
+    match c.toNat?, i.toNat? with
+    | some c, some i => some (.wleave c i, rest)
+    | _, _ => none
   | _ + 1, "R" :: c :: i :: j :: rest =>
     match c.toNat?, i.toNat?, j.toNat? with
     | some c, some i, some j => some (.wrecv c i j, rest)
@@ -106,6 +116,14 @@ def step' (n : Net) : List String → Net × String
     match bw.toNat?, parseBool a, parseBool b with
     | some bw, some a, some b => ({ n with links := n.links ++ [{ bw, load := 0, enA := a, enB := b }] }, "ok")
     | _, _, _ => (n, "bad-op")
+  | ["chan", caps, "en", en, "mem", mem] =>
+    -- flags as bit strings, e.g. `chan 5,5,7 en 110 mem 100`
+    let bits (w : String) : Option (List Bool) := parseBools (w.toList.map fun ch => String.singleton ch)
+    match parseNats (caps.splitOn ","), bits en, bits mem with
+    | some caps, some en, some mem =>
+      if caps.length == en.length && caps.length == mem.length then
+        ({ n with chans := n.chans ++ [{ caps, load := 0, en, mem }] }, "ok") else (n, "bad-op")
+    | _, _, _ => (n, "bad-op")
   | "chan" :: caps :: flags =>
     match parseNats (caps.splitOn ","), parseBools flags with
     | some caps, some en =>
@@ -128,14 +146,15 @@ def step' (n : Net) : List String → Net × String
     | _ => (n, "bad-op")
   | ["far", kind, en, mac, ip, plen, dmac, dip, ttl, own] =>
     let kind? : Option Forward.Kind := match kind with
-      | "h" => some .host | "r" => some .router | "s" => some .switch | _ => none
+      | "h" => some .host | "r" => some .router | "s" => some .switch | "w" => some .router | _ => none
+    let isWap := kind == "w"
     let own? := if own == "-" then some [] else parseNats (own.splitOn ",")
     match kind?, parseBool en, mac.toNat?, ip.toNat?, plen.toNat?, dmac.toNat?, dip.toNat?, ttl.toInt?, own? with
     | some kind, some en, some mac, some ip, some plen, some dmac, some dip, some ttl, some own =>
       let nd := farNode kind (own.map (BitVec.ofNat 32))
       let ifc : Forward.Iface := { mac, ip := BitVec.ofNat 32 ip, plen, enabled := en }
       let f : Forward.Frame := { id := 0, srcMac := 0, dstMac := dmac, srcIp := 0, dstIp := BitVec.ofNat 32 dip, ttl, pl := .dataReq }
-      (n, showBool (farAnswer nd ifc f))
+      (n, showBool (if isWap then farAnswerWap ifc f else farAnswer nd ifc f))
     | _, _, _, _, _, _, _, _, _ => (n, "bad-op")
   | ["dump"] => (n, dump n)
   | _ => (n, "bad-op")
